@@ -2,7 +2,7 @@
 From Coq Require Import List Bool ZArith Lia.
 Import ListNotations.
 From Rosed Require Import Base.Res Base.ListX Base.Utf8 Gem.Segment Gem.GString Model.Tb Model.Manip Model.Table Model.Options Model.Editor Model.Ops
-     Proofs.SeamP Proofs.C13P Proofs.C14P Proofs.C15P Proofs.C14Q.
+     Proofs.SeamP Proofs.C04P Proofs.C13P Proofs.C14P Proofs.C15P Proofs.C14Q Proofs.C14R.
 Open Scope Z_scope.
 
 (* both columns are at least 2 wide and lw + gap + rw is the minimum-clamped total
@@ -53,3 +53,18 @@ Theorem C14_right_column_offset : forall (C : Classifier) (K : ClassifierOk) (le
   glen (l ++ repeat SP (Z.to_nat (lw + gap - glen l))) = lw + gap.
 Proof. intros C K. exact two_columns_offset. Qed.
 Print Assumptions C14_right_column_offset.
+
+(* the same for every text: Wrap's width bound holds without any assumption on the clusters
+   (C06_width_every_text), so no left line is wider than the left column *)
+Theorem C14_layout_every_text : forall (C : Classifier) (K : ClassifierOk) (U : Upper) pos lt rt gap width m ex opts e lb rb,
+  let '(W, lw, rw) := two_col_widths width gap m ex in
+  let o := with_defaults opts in
+  let sep := decode (o_linesep o) in
+  (lt <> [] \/ rt <> []) -> 0 <= gap ->
+  wrap (decode lt) lw sep = Ok lb -> wrap (decode rt) rw sep = Ok rb ->
+  insert_two_columns_opts pos lt rt gap width m ex opts e =
+    insert pos (encode (tb_join {| b_lines := map (row_of (b_lines lb) (b_lines rb) (lw + gap))
+                                                 (seq 0 (Nat.max (length (b_lines lb)) (length (b_lines rb))));
+                                   b_sep := sep; b_trailing := negb (o_notrailing o) |})) e.
+Proof. intros C K U. exact two_columns_layout_all. Qed.
+Print Assumptions C14_layout_every_text.
